@@ -290,6 +290,78 @@ theorem validDeclR_available (doc : Doc) (defs : List (List VarDefR)) (raw : Raw
     ∀ f ∈ doc.frags, boundL (effectiveVarsR (defs.getD i []) raw) f.sels = true :=
   hv.2.2 i op hi
 
+/-! ### the measure of the rule the tree runs today (`ruleB`: conditions that cannot be evaluated keep the selection)
+
+  `depthK doc v op` is what `flags_iff_final` compares with the limit, for ANY view `v` of the request variables (no
+  availability hypothesis). Wrapping — in the operation or inside a fragment body — does not change it either: erasing the
+  unevaluable directives commutes with the wrapping, and the wrapper itself carries no directive. -/
+
+private theorem eraseD_none (v : Vars) : eraseD v {} = {} := by
+  simp [eraseD, dirsBound, optBound]
+
+private theorem wrapInline_erase (v : Vars) {s s' : List Sel} (h : WrapInline s s') :
+    WrapInline (eraseL v s) (eraseL v s') := by
+  induction h with
+  | here pre mid post =>
+    simp only [eraseL_append, eraseL_cons, eraseSel, eraseD_none, eraseL]
+    exact .here _ _ _
+  | field pre post a n d sub sub' _ ih =>
+    simp only [eraseL_append, eraseL_cons, eraseSel, eraseL]
+    exact .field _ _ a n _ _ _ ih
+  | inline pre post d ss ss' _ ih =>
+    simp only [eraseL_append, eraseL_cons, eraseSel, eraseL]
+    exact .inline _ _ _ _ _ ih
+
+private theorem valid_erase (doc : Doc) (v : Vars) (hu : UniqueNames doc.frags) (ha : Acyclic doc.frags) :
+    Valid (eraseDoc v doc) v := by
+  refine ⟨?_, ?_, ?_⟩
+  · show acyclic (eraseFrags v doc.frags) = true
+    rw [acyclic_erase]; exact acyclic_complete doc.frags hu ha
+  · intro op hop
+    simp only [eraseDoc, List.mem_map] at hop
+    obtain ⟨o, _, rfl⟩ := hop
+    exact boundL_erase v o.sels
+  · intro f hf
+    simp only [eraseDoc, eraseFrags, List.mem_map] at hf
+    obtain ⟨g, _, rfl⟩ := hf
+    exact boundL_erase v g.sels
+
+/-- **wrap_inline_in_fragment_final** — for the rule of today's tree and ANY request variables: wrapping a block of a
+    fragment body in an inline fragment leaves the depth it compares with the limit (`depthK`) unchanged, for every
+    operation of the document. -/
+theorem wrap_inline_in_fragment_final (doc doc' : Doc) (v : Vars)
+    (hu : UniqueNames doc.frags) (ha : Acyclic doc.frags) (hu' : UniqueNames doc'.frags) (ha' : Acyclic doc'.frags)
+    (pre post : List Frag) (f : Frag) (sels' : List Sel) (hw : WrapInline f.sels sels')
+    (hfr : doc.frags = pre ++ [f] ++ post) (hfr' : doc'.frags = pre ++ [⟨f.name, sels'⟩] ++ post)
+    (hops : doc'.ops = doc.ops) (op : Op) (hop : op ∈ doc.ops) : depthK doc' v op = depthK doc v op := by
+  obtain ⟨d, d', _, _, _, e1, e2⟩ := wrap_inline_in_fragment_ge (eraseDoc v doc) (eraseDoc v doc') v
+    (valid_erase doc v hu ha) (valid_erase doc' v hu' ha') (eraseFrags v pre) (eraseFrags v post) (eraseFrag v f)
+    (eraseL v sels') (wrapInline_erase v hw)
+    (by simp [eraseDoc, eraseFrags, hfr]) (by simp [eraseDoc, eraseFrags, eraseFrag, hfr'])
+    (by simp [eraseDoc, hops]) (eraseOp v op) (List.mem_map_of_mem (f := eraseOp v) hop)
+  unfold depthK
+  rw [← e1, ← e2]
+
+/-- **wrap_inline_final** — the same for a block of the OPERATION (at the top or at any nesting level) -/
+theorem wrap_inline_final (doc doc' : Doc) (v : Vars) (hu : UniqueNames doc.frags) (ha : Acyclic doc.frags)
+    (op : Op) (hop : op ∈ doc.ops) (sels' : List Sel) (hw : WrapInline op.sels sels') (hfr : doc'.frags = doc.frags)
+    (hop' : (⟨op.name, sels'⟩ : Op) ∈ doc'.ops) :
+    depthK doc' v ⟨op.name, sels'⟩ = depthK doc v op := by
+  have hv := valid_erase doc v hu ha
+  have hv' : Valid (eraseDoc v doc') v := valid_erase doc' v (by rw [hfr]; exact hu) (by rw [hfr]; exact ha)
+  obtain ⟨d, d', h1, h2, _, e⟩ := wrap_inline_ge (eraseDoc v doc) (eraseDoc v doc') v hv (eraseOp v op)
+    (List.mem_map_of_mem (f := eraseOp v) hop) (eraseL v sels') (wrapInline_erase v hw)
+    (by simp [eraseDoc, hfr]) (List.mem_map_of_mem (f := eraseOp v) hop')
+  have h3 := measured_eq_depth (eraseDoc v doc') v hv' (eraseOp v ⟨op.name, sels'⟩)
+    (List.mem_map_of_mem (f := eraseOp v) hop') _ (Nat.le_refl _)
+  have : (eraseOp v ⟨op.name, sels'⟩ : Op) = ⟨(eraseOp v op).name, eraseL v sels'⟩ := rfl
+  rw [this] at h3
+  rw [h2] at h3
+  unfold depthK
+  rw [this]
+  cases h3
+  exact e
+
 /-! ### non-vacuity: `{ ...F }  fragment F { a { c } d }` -/
 
 private theorem valid_of_checks' (doc : Doc) (vars : Vars) (h1 : acyclic doc.frags = true)
@@ -326,5 +398,11 @@ example : depthFixed d2.fuel opF d2.frags [] = .ok 1 := by decide
 example : UniqueNames d2.frags ∧ Acyclic d2.frags ∧ boundL (effectiveVarsR ([] : List VarDefR) []) opF.sels = true ∧
     ∀ f ∈ d2.frags, boundL (effectiveVarsR ([] : List VarDefR) []) f.sels = true :=
   ⟨by unfold UniqueNames; decide, acyclic_sound _ (by decide), by decide, by decide⟩
+
+/-- `wrap_inline_in_fragment_final` instantiated on `d0` / `d1`, for a view with an unknown variable -/
+example : depthK d1 [("unused", true)] opF = depthK d0 [("unused", true)] opF :=
+  wrap_inline_in_fragment_final d0 d1 _ (by unfold UniqueNames; decide) (acyclic_sound _ (by decide))
+    (by unfold UniqueNames; decide) (acyclic_sound _ (by decide)) [] [] ⟨"F", [fA, fD]⟩ [.inline {} [fA], fD]
+    (.here [] [fA] [fD]) rfl rfl rfl opF (by simp [d0])
 
 end PyGql.Props.C19
